@@ -393,8 +393,9 @@ pub fn sat_headers(r: &RuleSpec, p: &Probe, cfg: &Cfg) -> Option<bool> {
             ("starts_with", Some(w)) => values.iter().any(|v| v.starts_with(w.as_str())),
             ("ends_with", Some(w)) => values.iter().any(|v| v.ends_with(w.as_str())),
             ("match_regex", Some(_)) => {
-                // pattern = the rule's own text (not lower-cased), unanchored by design; conditions without a marker are skipped
-                match marker_regex(c.value.as_ref().unwrap(), &r.markers, false, false) {
+                // pattern = the rule's own text, unanchored by design, read without regard to letter case when header case is
+                // ignored (like every other kind of header condition); conditions without a marker are skipped
+                match marker_regex(c.value.as_ref().unwrap(), &r.markers, cfg.ignore_header_case, false) {
                     None => continue,
                     Some(re) => values.iter().any(|v| re.is_match(v)),
                 }
@@ -711,6 +712,14 @@ pub fn deviations() -> Vec<(usize, String, Box<dyn Fn(&mut RuleSpec) + Send + Sy
             r.markers.push(("d".into(), "[0-9]+".into()));
         }),
     );
+    add(
+        4,
+        "X match_regex V@d (upper-case literal)",
+        Box::new(|r| {
+            r.headers = vec![hc("match_regex", "X", Some("V@d"))];
+            r.markers.push(("d".into(), "[0-9]+".into()));
+        }),
+    );
     add(4, "X=v&Y defined", Box::new(|r| r.headers = vec![hc("is_equals", "X", Some("v")), hc("is_defined", "Y", None)]));
     add(4, "X=v&Y not defined", Box::new(|r| r.headers = vec![hc("is_equals", "X", Some("v")), hc("is_not_defined", "Y", None)]));
     add(4, "Y is_defined", Box::new(|r| r.headers = vec![hc("is_defined", "Y", None)]));
@@ -784,15 +793,6 @@ pub fn deviations() -> Vec<(usize, String, Box<dyn Fn(&mut RuleSpec) + Send + Sy
         Box::new(|r| {
             r.path = "/A/@m".into();
             r.markers.push(("m".into(), "[a-z]+".into()));
-        }),
-    );
-    // a counted repetition over Unicode classes: the compiled program of this expression is megabytes large
-    add(
-        6,
-        "path=/a/@m counted unicode class {1,60}",
-        Box::new(|r| {
-            r.path = "/a/@m".into();
-            r.markers.push(("m".into(), r"[\p{L}\p{N}\-]{1,60}".into()));
         }),
     );
     // two marker rules sharing a literal prefix whose regex source is longer than its text (escaped '-')
